@@ -1872,7 +1872,16 @@ class ITEIntroMacro(Macro):
         for t in ites:
             P, x, y = t.args
             ite_intros.append(logic.mk_if(P, Eq(x, t), Eq(y, t)))
-        expected_ites = rhs.strip_conj()[1:]
+        # The right side is lhs & ite_1 & ... & ite_n (lhs may itself be a conjunction)
+        rhs_conjs = rhs.strip_conj()
+        lhs_conjs = lhs.strip_conj()
+        if rhs.is_conj() and (rhs.arg1 == lhs or compare_sym_tm(lhs, rhs.arg1)):
+            expected_ites = rhs.arg.strip_conj()
+        elif len(rhs_conjs) > len(lhs_conjs) and all(l == r or compare_sym_tm(l, r)
+                                                       for l, r in zip(lhs_conjs, rhs_conjs)):
+            expected_ites = rhs_conjs[len(lhs_conjs):]
+        else:
+            raise VeriTException("ite_intro", "the right side should be the left side followed by the ite equations")
 
         # Sometimes the expected result has fewer conjuncts
         expected_set = set(expected_ites)
